@@ -75,6 +75,43 @@ def legacy(seed, k, tier):
     return s
 
 
+def smallcaps(seed, k=0):
+    """Every small-cap asset as a destination (and pFCT, PEG as controls) from two blocks before to two blocks after the
+    OneWaySmall / 2.0.2 activation, every asset at a rate of its own; sources of small-cap assets stay convertible."""
+    rnd = random.Random(seed * 43 + k)
+    B = 12
+    assets = ["PEG", "pUSD", "pFCT", "pXBT", "pEUR"] + sorted(scen.SMALLCAPS - {"PEG"})
+    rates = scen.distinct_rates(assets)
+    s = scen.Scn("c13-smallcaps-%d" % k, sched=dict(scen.LIVE, V202=B, OneWaySmall=B), seed=seed * 10 + 5 + k, avg=4, assets=assets)
+    users = [s.key("A%d" % i) for i in range(1, 5)]
+    h = 4
+    s.grade(h, spr=False, rates=rates); h += 1
+    s.grade(h, rates=rates); h += 1
+    s.grade(h, rates=rates); h += 1
+    s.grade(h, rates=rates)
+    for i, u in enumerate(users):
+        s.transfer(h, scen.MINERS[i], "PEG", [(u, 1200 * 10**8)])
+    h += 1
+    s.grade(h, rates=rates)
+    for u in users:
+        s.entry(h, u, [{"t": "PEG", "amt": 600 * 10**8, "conv": "pUSD"}])
+    h += 1
+    dests = sorted(scen.SMALLCAPS - {"PEG"}) + ["pFCT", "pEUR"]
+    while h <= B + 3:
+        s.grade(h, rates=rates)
+        if h >= B - 3:
+            for j, d in enumerate(dests):
+                u = users[j % 2]
+                s.convert(h, u, "pUSD", 10**6 + 1000 * h + j, d, track=False)         # one batch per destination
+            if h >= B:
+                # small-cap SOURCES stay convertible (bought before the activation)
+                s.convert(h, users[0], dests[(h * 2) % 15], 1000, "pUSD", track=False)
+                s.convert(h, users[1], dests[(h * 2 + 1) % 15], 1000, "pXBT", track=False)
+        h += 1
+    s.grade(h, rates=rates); s.tip(h)
+    return s
+
+
 def family(seed, tier):
     docs = []
     n = 2 if tier == "quick" else 8
@@ -82,6 +119,8 @@ def family(seed, tier):
         for f in (live, legacy):
             s = f(seed, k, tier)
             docs.append((s.s["name"], s.doc()))
+    sc = smallcaps(seed)
+    docs.append((sc.s["name"], sc.doc()))
     return docs
 
 
@@ -89,7 +128,7 @@ def main():
     return lcheck.run_check(PID, family, {"C13"},
         rule="conversions between every ordered pair of asset classes {PEG, pUSD, pFCT (one-way), normal, small-cap} submitted at every height around the "
              "activations (live schedule: OneWaySmall/2.0.2 and PIP-10; all-era schedule: OneWaypFCT, bank era, 2.0, 2.0.2, PIP-10), with funded and unfunded "
-             "sources and a zero rate produced by an out-of-band asset after 2.0.2; TLC decides each batch from the observed pre-state: executed iff admissible "
+             "sources, every single small-cap ticker as destination and as source around OneWaySmall, and a zero rate produced by an out-of-band asset after 2.0.2; TLC decides each batch from the observed pre-state: executed iff admissible "
              "at the EXECUTION height and funded, otherwise balances untouched; non-trivial = every conversion",
         corrupt=lcheck.corrupt_balance)
 
